@@ -141,6 +141,8 @@ def run(ctx):
     ctx.guarded('R16c', 'propagation', lambda: r16c(ctx))
     ctx.rule('R16e', 'register_new_xorb_for_upload: every successful return passed the spawn of the put task for this xorb, except on the empty-xorb edge; the task puts the hash, bytes and chunk list of that same xorb')
     ctx.guarded('R16e', REGC, lambda: r16e(ctx))
+    ctx.rule('R16f', 'upload_and_register_session_shards has no successful shortcut: every non-error return consolidated the session directory and joined every shard upload')
+    ctx.guarded('R16f', UPLC, lambda: shard_upload_no_shortcut(ctx, 'R16f'))
 
 
 def r16a(ctx):
@@ -398,6 +400,25 @@ def r16c(ctx):
             ctx.check(ok, 'R16c', b['qpath'], short(name), ab.loc(bi), '%s result: %s' % (short(name), d), '%s failure can be swallowed: %s' % (short(name), d))
     ctx.floor('R16c', 'upload-chain call sites in data/deduplication', n, 24)
     ctx.info('R16c', '-', '-', 'upload-failure carriers (%d): %s' % (len(carriers), ', '.join(short(c) for c in carriers)))
+
+
+def shard_upload_no_shortcut(ctx, rule):
+    """no successful shortcut in upload_and_register_session_shards: every non-error return has consolidated the session
+    directory and joined every shard task (shards cut earlier in the session live in the directory even when the final
+    flush had nothing left to write)"""
+    ap = an(ctx.F.body(UPLC))
+    cons = ap.calls('mdb_shard::session_directory::consolidate_shards_in_directory')
+    joins = [j for j in ap.calls('tokio::task::join_set::JoinSet::join_next')]
+    none_edges = []
+    for j in joins:
+        ve = ap.variant_edges(j, 'core::option::Option<')
+        none_edges += ve.get('0', []) + ve.get('otherwise', [])
+    for (b, si, k, e) in ap.ret_sites():
+        if k == 'err':
+            continue
+        ok = bool(cons) and bool(none_edges) and ap.cfg.must_pass(b, via_blocks=cons) and ap.cfg.must_pass(b, via_edges=none_edges)
+        ctx.check(ok, rule, UPLC, 'Ok<-consolidate+join', ap.loc(b, si), 'a successful return has consolidated the session directory and joined all shard upload tasks',
+                  'upload_and_register_session_shards can report success without consolidating / uploading the shards in the session directory: shards cut earlier in the session never reach the store or the cache')
 
 
 def short(n):
